@@ -802,14 +802,15 @@ def batches(ctx):
     ctx.dist["cli_observed"] = seen
 
     def impl_cli_counted(c):
-        res = impl_cli(c)
+        return impl_cli(c)
+
+    def observe_cli(c, res):          # parent process (Batch.observe)
         oc = observed_outcome(res)
         seen["outcomes"][oc] = seen["outcomes"].get(oc, 0) + 1
         n = res["all"].get("truncated_from", len(res["all"]["stdout"].splitlines()))
         seen["solutions_all_gt1"] += n > 1
         seen["max_solutions_all"] = max(seen["max_solutions_all"], n)
         seen["objects_drawn"] += sum(1 for pol in ("any", "all") for b in res[pol]["back"] if b[1] is True)
-        return res
 
     def nontrivial_cli(c, res):
         return observed_outcome(res) in ("run", "warn") and any(unnamed(a) for a in preorder(c["obj"]) + preorder(c["sp"]))
@@ -830,7 +831,7 @@ def batches(ctx):
     yield Batch(
         name="cli", header=HEADER, run="run_cli", eqb="cli_eqb",
         ty_in="string * bool * bool * bool * ntree string * ntree string", ty_out="cli_out",
-        cases=ccases, impl=impl_cli_counted, enc_in=enc_cli_in, enc_out=enc_cli_out,
+        cases=ccases, impl=impl_cli_counted, observe=observe_cli, enc_in=enc_cli_in, enc_out=enc_cli_out,
         oracle=oracle_cli, nontrivial=nontrivial_cli, exhaustive=False, shard=200,
         describe=("`reconcile` under both policies on random documented-format inputs, in-process through the real argparse parser "
                   f"and {n_sub} of them as `python -m superrec2.cli`; every output object parsed back and given to `draw` (stub TeX measurer); "
